@@ -908,7 +908,9 @@ impl<T: Serialize + for<'de> Deserialize<'de> + Clone + PartialEq + Send + Sync 
     async fn recover_from_snapshot(&self, stats: &mut RecoveryStats) -> Result<()> {
         let snapshots = self.find_snapshots()?;
 
-        for snapshot_path in snapshots.iter().rev() {
+        // find_snapshots() lists the newest snapshot first; fall back to older ones only if
+        // a newer one is unusable (WAL files covered by the newest snapshot are deleted)
+        for snapshot_path in snapshots.iter() {
             match self.load_snapshot(snapshot_path).await {
                 Ok((header, loaded_state, checksum)) => {
                     // Verify checksum (computed over the bytes as stored; re-serialising the
